@@ -7,12 +7,18 @@ package req
 //@ func validHeaderFieldValue(val) r
 //@   props C03
 
+//@ ghost var flBad bool
+//@ ghost var flErr int
 // C01 (request line): the method is the first line up to its first blank, the request target what lies between that
 // blank and the last blank of the line (or the end of the line when there is no version).
 //@ func parseFirstLine(h, buf) n, err
-//@   props C03, C01
+//@   props C03, C01, C02
 //@   requires h != nil
-//@   modifies h._all, mem
+//@   modifies h._all, mem, flBad, flErr
+//@   ghostset-at-entry flBad = false
+//@   ghostset after NextLine: flBad = (result2 != nil)
+//@   ghostset after NextLine: flErr = result2
+//@   top-ensures @C02 flBad ==> err == flErr
 //@   ensures h.disableNormalizing == old(h.disableNormalizing)
 //@   allocates
 //@   ensures err == nil ==> 0 <= n && n <= len(buf)
@@ -20,6 +26,7 @@ package req
 //@   assert @C01 before RequestHeader.SetRequestURIBytes: sameArray(arg1, b) && off(arg1) == off(b) && len(arg1) <= len(b) && (len(arg1) == len(b) || (len(arg1) >= 1 && b[len(arg1)] == ' ')) && forall(k, 0, len(b), k > len(arg1) ==> b[k] != ' ')
 //@   loop 0:
 //@     invariant sameArray(bNext, buf) && off(bNext) >= off(buf) && off(bNext) + len(bNext) == off(buf) + len(buf)
+//@     invariant @C02 !flBad
 
 // C01 (framing decision): once a Transfer-Encoding other than identity has made the message chunked (length -1),
 // no later header field changes that: a Content-Length field is looked at only while the length is not -1.
